@@ -3,8 +3,7 @@
 
 from rzilcompiler.Transformer.Pures.Pure import Pure
 from rzilcompiler.Transformer.Pures.PureExec import PureExec
-from rzilcompiler.Transformer.Pures.BooleanOp import BooleanOp
-from rzilcompiler.Transformer.Pures.CompareOp import CompareOp
+from rzilcompiler.Transformer.ValueType import VTGroup
 
 
 class Ternary(PureExec):
@@ -12,7 +11,7 @@ class Ternary(PureExec):
         PureExec.__init__(self, name, [cond, then_p, else_p], then_p.value_type)
 
     def il_exec(self):
-        if isinstance(self.ops[0], BooleanOp) or isinstance(self.ops[0], CompareOp):
+        if self.ops[0].value_type.group & VTGroup.BOOL:
             cond = self.ops[0].il_read()
         else:
             cond = f"NON_ZERO({self.ops[0].il_read()})"
